@@ -368,7 +368,7 @@ impl error::EndOfInputError for IfCaseEndOfInputError {
             .into(),
             format![
                 "the input ended while skipping case {}",
-                self.total_cases_to_skip + 1 - self.cases_left_to_skip
+                self.total_cases_to_skip - self.cases_left_to_skip + 1
             ]
             .into(),
         ]
